@@ -325,6 +325,10 @@ func (d *Data) handleProximity(ctx *datastore.VersionedCtx, w http.ResponseWrite
 func (d *Data) handleIndex(ctx *datastore.VersionedCtx, w http.ResponseWriter, r *http.Request, parts []string) {
 	// GET  <api URL>/node/<UUID>/<data name>/index/<label>
 	// POST <api URL>/node/<UUID>/<data name>/index/<label>
+	if len(parts) < 5 {
+		server.BadRequest(w, r, "expect label to follow /index endpoint")
+		return
+	}
 	timedLog := dvid.NewTimeLog()
 
 	queryStrings := r.URL.Query()
